@@ -229,18 +229,27 @@ def _evaluate_once(c: Dict[str, Any]) -> Tuple[List[Any], Dict[str, Any]]:
         if any(e is None for e in extras):
             endpoints += [(hosts[0], pt) for pt in ports_truth if (hosts[0], pt) not in endpoints]
         info['endpoints'] = len(endpoints) + (1 if upath else 0)
-        for (h, pt) in endpoints:
-            r = try_request(h, pt, deadline)
-            if r == 'refused':
-                out.append(('configured-endpoint-refuses', feat, {'endpoint': (h, pt), 'listening': sorted(listening)}, 'accepts'))
-            elif r == 'timeout':
-                info['inconclusive'] = True
+        # every endpoint is probed with a request; the unix socket first.  An endpoint that accepts the connection but gives no
+        # answer is judged RELATIVELY: it is a violation only if, in this very run, another endpoint of the same instance did
+        # answer and this one stays silent through a second attempt with a fresh 30 s allowance (absolute time alone never
+        # decides: with nothing to compare with, silence is inconclusive)
+        probes: List[Tuple[Any, str]] = []
         if upath:
-            r = try_unix(upath, deadline)
+            probes.append((('unix', upath), try_unix(upath, deadline)))
+        for (h, pt) in endpoints:
+            probes.append((((h, pt)), try_request(h, pt, max(deadline, time.time() + 5))))
+        answered = [e for e, r in probes if r == 'answered']
+        for e, r in probes:
             if r == 'refused':
-                out.append(('unix-socket-refuses', feat, upath, 'accepts'))
+                out.append(('unix-socket-refuses' if e[0] == 'unix' else 'configured-endpoint-refuses', feat,
+                            {'endpoint': e, 'listening': sorted(listening)}, 'accepts'))
             elif r == 'timeout':
-                info['inconclusive'] = True
+                r2 = (try_unix(e[1], time.time() + 30) if e[0] == 'unix' else try_request(e[0], e[1], time.time() + 30)) if answered else 'timeout'
+                if r2 == 'timeout' and answered:
+                    out.append(('endpoint-accepts-but-does-not-serve', dict(feat, endpoint='unix' if e[0] == 'unix' else 'tcp'),
+                                {'endpoint': e, 'answered_meanwhile': answered[:3]}, 'a response, like the other endpoints of this instance'))
+                elif r2 != 'answered':
+                    info['inconclusive'] = True
         # -- files
         if port_file:
             try:
